@@ -477,7 +477,14 @@ def convert_nglob_to_regex(
                     if last in ["*", "**"]:
                         replace = True
             elif part.startswith("[") and part.endswith("]"):
-                regex = rf"[^{part[2:-1]}]" if part[1] == "!" else rf"[{part[1:-1]}]"
+                if part[1] == "!":
+                    regex = rf"[^{part[2:-1]}]"
+                elif part[1] == "^":
+                    # Only `!` negates a set in a glob pattern: a leading `^` is a literal member,
+                    # which is also how `glob.iglob` (used by `NamedGlob.glob`) reads it.
+                    regex = rf"[\^{part[2:-1]}]"
+                else:
+                    regex = rf"[{part[1:-1]}]"
             elif part.startswith("${*") and part.endswith("}"):
                 if not allow_names:
                     raise ValueError(f"Named wildcards not allowed in {pattern}")
